@@ -189,7 +189,7 @@ func (f *FieldCopyToGenerator) genAssignValue(fieldName string) *j.Statement {
 func (f *FieldCopyToGenerator) genObjectBody(m *MessageCopyToGenerator, fieldName string, typ string, g *j.Group) {
 	copyObj := func(g *j.Group) {
 		if len(m.Fields) > 0 {
-			if !m.IsEmpty {
+			if !m.HasNothingToCopy() {
 				g.Id("obj").Op(":=").Id(fieldName)
 			}
 			g.Id("tf").Op(":=").Id("&v")
@@ -359,7 +359,7 @@ func (f *FieldCopyToGenerator) genListOrMap() *j.Statement {
 
 				// for k, a := range obj.List
 				loopVars := j.List(j.Id("k"), j.Id("a"))
-				if f.getValueField().Message != nil && f.getValueField().Message.IsEmpty && !f.IsNullable {
+				if f.getValueField().Message != nil && f.getValueField().Message.HasNothingToCopy() && !f.IsNullable {
 					// for k := range obj.List: a message without fields held by value has nothing to read
 					loopVars = j.Id("k")
 				}
